@@ -185,6 +185,21 @@ def run(rep, programs):
                     has_hint = any(T.mentions_param(p, "start_row") for p in parts)
                     if has_i and has_hint:
                         return True, "huge_idx(i + start_row.huge_idx())"
+            # arithmetic form: index = X - ROWS * (X / ROWS) with X = loop counter + something derived from the hint row
+            rows_ = [x for x in T.walk(recv) if x[0] == "call" and x[1] == "llfree::bitfield::Bitfield::row"]
+            if rows_:
+                ll = lib.index_lin(prog, rows_[0][2][1])
+                if ll is not None:
+                    for atom, coef in ll[0].items():
+                        if coef == -ROWS and atom[0] == "bin" and atom[1] == "Div" and atom[3] == ("c", ROWS):
+                            rest = ({k: v for k, v in ll[0].items() if k != atom}, ll[1])
+                            if lib.lin_key(rest) == atom[2]:
+                                cnt = [k for k, v in rest[0].items() if v == 1 and any(
+                                    isinstance(y, tuple) and y and y[0] == "call" and str(y[1]).endswith("::next") for y in T.walk(k))]
+                                hint = any(any(isinstance(y, tuple) and y and y[0] == "p" and y[-1] == "start_row" for y in T.walk(k))
+                                           for k in rest[0])
+                                if cnt and hint:
+                                    return True, "(i + f(start_row)) % ROWS"
             return False, T.show(recv)[:160]
         check_loop(rep, rule, b, tm, prog, fn + "|row-loop", h, blocks, exits, 0, "self.data.len() (= ROWS = %d)" % ROWS, hi_ok, index_ok)
     # huge_idx is `% ROWS`
